@@ -180,12 +180,8 @@ public:
 
 	void operator=(const HashMap& b)
 	{
-		if (--_rc() == 0) {
-			clear();
-			asl_destroy((AtomicCount*)&a[1]);
-		}
-		a = b.a;
-		++_rc();
+		HashMap c(b); // take the new reference before releasing the old table: b may be this map or a value stored in it
+		swap(a, c.a); // c's destructor releases the old table
 	}
 
 	~HashMap()
